@@ -662,6 +662,20 @@ impl Check for C04 {
         }
     }
 
+    fn extra_coverage(
+        &self,
+        _tier: Tier,
+        _c: &std::collections::BTreeMap<String, u64>,
+    ) -> serde_json::Map<String, serde_json::Value> {
+        let mut m = serde_json::Map::new();
+        m.insert("enumerated_histories".into(), serde_json::json!(enum_cells()));
+        m.insert(
+            "enumeration_note".into(),
+            serde_json::json!("complete: every history of 1..=4 operations (26 operations with arguments 0..=3) x initial capacity 0..=3; the same under every VERIF_SEED"),
+        );
+        m
+    }
+
     fn shrink(&self, sc: &Sc) -> Vec<Sc> {
         let mut out = Vec::new();
         for ops in drop_chunks(&sc.ops) {
